@@ -97,6 +97,15 @@ def run(tier, seed, t0):
     st = core.Stats()
     for k, c in enumerate(cases):
         st.add(c, judge(c), keep_sample=(k % max(1, len(cases) // 5) == 0))
+    # the helpers again in other orders within the same process (state kept between calls)
+    resweep = 0
+    for order in (list(reversed(cases)), sorted(cases, key=lambda c: (c["name"][::-1]))):
+        for c in order:
+            out = judge(c)
+            if out.violations:
+                st.add(c, out)
+            resweep += 1
+    st.extra["history_resweep_calls"] = resweep
     st.extra["max_index"] = max((max(c["idx"]) for c in cases if c["idx"]), default=0)
     st.extra["two_level_names"] = sum(1 for c in cases if len(c["idx"]) == 2)
     st.extra["three_digit_names"] = sum(1 for c in cases if c["idx"] and max(c["idx"]) > 99)
